@@ -41,13 +41,23 @@ def h_fidelity(S, B):
     if nattr >= 2:
         exc.detail = S.str("attr_str", 3)
     exc._pyroTraceback = ["tb line\n"]
+    # the position the failure travels in: the reply of a plain call (the exception itself), or a batch reply (a list of
+    # results in which the failing member's exception sits inside Pyro's own wrapper)
+    position = S.choice("position", ["reply", "batch-member"])
     got = None
     err = None
     try:
-        got = ser.loads(ser.dumps(exc))
+        if position == "reply":
+            got = ser.loads(ser.dumps(exc))
+        else:
+            back = ser.loads(ser.dumps([1, core._ExceptionWrapper(exc)]))
+            S.check("batch-reply-keeps-the-earlier-results", isinstance(back, list) and len(back) == 2 and back[0] == 1
+                    and isinstance(back[1], core._ExceptionWrapper))
+            got = back[1].exception if isinstance(back, list) and len(back) == 2 and isinstance(back[1], core._ExceptionWrapper) else None
     except Exception as x:
         err = x
     S.cover("fidelity:" + sname)
+    S.cover("position:" + position)
     S.check("exception-survives-the-serializer", err is None)
     if err is not None:
         return
@@ -78,8 +88,8 @@ SPECS = [
     Spec("fidelity", h_fidelity,
          {"quick": {"SERIALIZERS": ["serpent", "json", "marshal", "msgpack"], "CLASSES": EXC_CLASSES},
           "thorough": {"SERIALIZERS": ["serpent", "json", "marshal", "msgpack"], "CLASSES": EXC_CLASSES}},
-         covers=["fidelity:serpent", "fidelity:json", "fidelity:marshal", "fidelity:msgpack", "check:same-exception-class",
+         covers=["fidelity:serpent", "fidelity:json", "fidelity:marshal", "fidelity:msgpack", "position:batch-member", "check:same-exception-class",
                  "check:equal-args", "check:equal-custom-attributes"],
          native_patch=env.native_env, reset=_reset,
-         desc="an exception of one of 14 classes (builtins, Pyro5.errors, struct.error) with 0..2 symbolic arguments (int, string of any code points) and 0..2 symbolic custom attributes through each serializer's real dumps/loads (class_to_dict -> codec model -> dict_to_class/make_exception)"),
+         desc="an exception of one of 14 classes (builtins, Pyro5.errors, struct.error) with 0..2 symbolic arguments (int, string of any code points) and 0..2 symbolic custom attributes as the reply of a call or as a wrapped member of a batch reply through each serializer's real dumps/loads (class_to_dict -> codec model -> dict_to_class/make_exception)"),
 ]
